@@ -19,6 +19,7 @@ import (
 	"sync"
 	"time"
 
+	"github.com/ozontech/seq-db/conf"
 	"github.com/ozontech/seq-db/frac"
 	"github.com/ozontech/seq-db/fracmanager"
 	"github.com/ozontech/seq-db/seq"
@@ -49,9 +50,9 @@ func coqMeta(mid, rid uint64, size int, toks []int) string {
 func coqBulk(docs []Doc) string {
 	var p []string
 	for _, d := range docs {
-		p = append(p, fmt.Sprintf("(%s, %d%%N)", coqMeta(d.MID, d.RID, d.size(), d.Toks), d.Var))
+		p = append(p, fmt.Sprintf("(%s, %d%%N)", coqMeta(d.MID, d.RID, d.size(), d.Toks), d.tag()))
 		for _, n := range d.Nested {
-			p = append(p, fmt.Sprintf("(%s, %d%%N)", coqMeta(d.MID, d.RID, 0, n), d.Var))
+			p = append(p, fmt.Sprintf("(%s, %d%%N)", coqMeta(d.MID, d.RID, 0, n), d.tag()))
 		}
 	}
 	return "[" + strings.Join(p, "; ") + "]"
@@ -263,29 +264,69 @@ type Step struct {
 }
 
 type History struct {
-	Mode  string `json:"mode"` // seq cross conc
+	Mode  string `json:"mode"` // seq cross conc scn-*
 	Steps []Step `json:"steps"`
-	// ObsAt: numbers of executed steps after which the store is observed; DumpAt: after how many
-	// steps the active fraction's state is copied (-1 = never)
-	ObsAt  []int `json:"obs_at"`
-	DumpAt int   `json:"dump_at"`
+	// ObsAt: numbers of executed steps after which the store is observed; DumpsAt: numbers of
+	// executed steps after which the tables of every fraction holding documents are copied
+	// (active: index state, sealed: tables read through the sealed loaders)
+	ObsAt   []int `json:"obs_at"`
+	DumpsAt []int `json:"dumps_at,omitempty"`
+	// Workers: index workers of the store (0 = the default, one per CPU). With one worker a
+	// replay indexes the log in file order, so order-sensitive state (LID table, positions,
+	// which bytes win) is compared after a restart; histories with other settings carry
+	// identical bytes on every delivery of an ID and are dumped only where the order is fixed.
+	Workers   int  `json:"workers"`
+	SkipSort  bool `json:"skip_sort"`  // frac.Config.SkipSortDocs
+	BlockSize int  `json:"block_size"` // SealParams.DocBlockSize (0 = default 4 MiB)
 }
 
-// genHistory builds a history. mode seq: one fraction, sequential bulks; a re-sent document
-// carries the same tokens but sometimes other bytes (a probe: the first delivery must win);
-// then seal and restart. mode cross: a seal in the middle, repeats (identical content) land in
-// a later fraction. mode conc: groups of bulks delivered concurrently (identical content),
-// restart before the seal (replay of the active fraction), then seal and restart.
+func (h History) exact() bool { return h.Workers == 1 }
+
+func (h History) effBlockSize() int {
+	if h.BlockSize <= 0 {
+		return 4 << 20
+	}
+	return h.BlockSize
+}
+
+// genHistory builds a history.
+//
+//	seq    one fraction, sequential bulks, one index worker; a re-sent document carries the same
+//	       tokens but often other bytes (first delivery must win: live, after a replay, after
+//	       seal and after reload); restarts between bulks (replay of the log with its repeats,
+//	       also between a first delivery and its repeat); then seal and restart
+//	cross  like seq with a seal in the middle: repeats of documents of the sealed fraction land in
+//	       the new fraction with their original bytes, later repeats inside the new fraction vary
+//	conc   groups of bulks delivered concurrently (identical content, default workers), restart
+//	       before the seal (replay in worker order), then seal and restart
 func genHistory(r *rng.R, mode string, nbulks int) History {
 	g := gen{r}
-	h := History{Mode: mode, DumpAt: -1}
-	var sent [][]Doc // earlier bulks
-	var all []Doc    // first deliveries
+	h := History{Mode: mode}
+	exact := mode != "conc"
+	if exact {
+		h.Workers = 1
+	}
+	switch r.Intn(6) {
+	case 0, 1:
+		h.SkipSort = exact // positions of the unsorted docs file depend on the arrival order
+	case 2, 3:
+		h.BlockSize = 40 + r.Intn(200) // several small docs blocks in the sealed form
+	}
+	var sent [][]Doc              // earlier bulks
+	var all []Doc                 // first deliveries
+	first := map[idPair]Doc{}     // ID -> first delivery ever (the bytes every fraction must serve)
+	cur := map[idPair]bool{}      // IDs held by the current (active) fraction
 	nextRID := uint64(1)
 	resend := func(d Doc) Doc {
-		if mode == "seq" && r.Chance(1, 2) {
+		k := idPair{d.MID, d.RID}
+		if !cur[k] {
+			return first[k] // first delivery into this fraction: the original bytes
+		}
+		if exact && r.Chance(2, 3) {
 			d.Var++
 			d.Pad = r.Intn(12)
+		} else {
+			d = first[k]
 		}
 		return d
 	}
@@ -341,14 +382,24 @@ func genHistory(r *rng.R, mode string, nbulks int) History {
 	record := func(b []Doc) {
 		sent = append(sent, b)
 		for _, d := range b {
-			known := false
-			for _, a := range all {
-				known = known || (a.MID == d.MID && a.RID == d.RID)
-			}
-			if !known {
+			k := idPair{d.MID, d.RID}
+			if _, known := first[k]; !known {
+				first[k] = d
 				all = append(all, d)
 			}
+			cur[k] = true
 		}
+	}
+	mark := func(dump bool) {
+		h.ObsAt = append(h.ObsAt, len(h.Steps))
+		if dump {
+			h.DumpsAt = append(h.DumpsAt, len(h.Steps))
+		}
+	}
+	seal := func() {
+		h.Steps = append(h.Steps, Step{Kind: "seal"})
+		cur = map[idPair]bool{}
+		mark(exact || !h.SkipSort)
 	}
 	sealAt := -1
 	if mode == "cross" {
@@ -374,29 +425,142 @@ func genHistory(r *rng.R, mode string, nbulks int) History {
 			h.Steps = append(h.Steps, Step{Kind: "bulk", Docs: b})
 		}
 		if i+1 == sealAt {
-			h.ObsAt = append(h.ObsAt, len(h.Steps))
-			h.Steps = append(h.Steps, Step{Kind: "seal"})
+			mark(false)
+			seal()
+		} else if exact && i+1 < nbulks && r.Chance(1, 3) { // restart between two bulks: replay of the log
+			h.Steps = append(h.Steps, Step{Kind: "restart"})
+			mark(true)
+			if r.Chance(1, 6) { // a second restart changes nothing
+				h.Steps = append(h.Steps, Step{Kind: "restart"})
+				mark(true)
+			}
 		}
 	}
-	if mode == "seq" {
-		h.DumpAt = len(h.Steps)
-	}
-	h.ObsAt = append(h.ObsAt, len(h.Steps))
-	if mode == "conc" {
+	mark(exact)
+	if mode == "conc" || r.Chance(1, 2) {
 		h.Steps = append(h.Steps, Step{Kind: "restart"})
-		h.ObsAt = append(h.ObsAt, len(h.Steps))
+		mark(exact)
 	}
-	h.Steps = append(h.Steps, Step{Kind: "seal"})
-	h.ObsAt = append(h.ObsAt, len(h.Steps))
+	seal()
 	h.Steps = append(h.Steps, Step{Kind: "restart"})
-	h.ObsAt = append(h.ObsAt, len(h.Steps))
+	mark(exact || !h.SkipSort)
 	return h
+}
+
+// genScenario builds the fixed shapes the property names, with random documents: one index
+// worker, every repeat with other bytes where its fraction already holds the ID.
+//
+//	scn-restart-between  first delivery, restart, repeat (other bytes) with a new document,
+//	                     restart, seal, restart
+//	scn-seal-repeat      first delivery, repeat, seal, repeat in the new fraction (original bytes)
+//	                     with a new document, repeat again (other bytes), seal, restart
+//	scn-overlap          partial overlaps only: every bulk re-sends a part of the previous one
+//	scn-degenerate       boundary shapes: restart of an empty store, seal of an empty fraction,
+//	                     double seal, double restart, a bulk made of repeats only
+func genScenario(r *rng.R, kind string) History {
+	g := gen{r}
+	h := History{Mode: kind, Workers: 1}
+	switch r.Intn(4) {
+	case 0:
+		h.SkipSort = true
+	case 1:
+		h.BlockSize = 30 + r.Intn(120)
+	}
+	rid := uint64(1)
+	fresh := func(n int) []Doc {
+		var out []Doc
+		for i := 0; i < n; i++ {
+			out = append(out, g.doc(uint64(midLo+r.Intn(60)), rid, false))
+			rid++
+		}
+		return out
+	}
+	vary := func(ds []Doc) []Doc {
+		out := append([]Doc{}, ds...)
+		for i := range out {
+			out[i].Var++
+			out[i].Pad = r.Intn(12)
+		}
+		return out
+	}
+	mix := func(a, b []Doc) []Doc {
+		out := append(append([]Doc{}, a...), b...)
+		switch r.Intn(3) {
+		case 0:
+			rng.Shuffle(r, out)
+		case 1:
+			out = append(append([]Doc{}, b...), a...)
+		}
+		return out
+	}
+	step := func(kind string, docs []Doc) {
+		h.Steps = append(h.Steps, Step{Kind: kind, Docs: docs})
+		h.ObsAt = append(h.ObsAt, len(h.Steps))
+		h.DumpsAt = append(h.DumpsAt, len(h.Steps))
+	}
+	a := fresh(1 + r.Intn(3))
+	switch kind {
+	case "scn-restart-between":
+		step("bulk", a)
+		step("restart", nil)
+		step("bulk", mix(vary(a[:1+r.Intn(len(a))]), fresh(r.Intn(3))))
+		step("restart", nil)
+		step("seal", nil)
+		step("restart", nil)
+	case "scn-seal-repeat":
+		step("bulk", a)
+		step("bulk", mix(vary(a[:1+r.Intn(len(a))]), fresh(r.Intn(2))))
+		step("seal", nil)
+		step("bulk", mix(a, fresh(1+r.Intn(2))))
+		if r.Bool() {
+			step("restart", nil)
+		}
+		step("bulk", mix(vary(a), fresh(r.Intn(2))))
+		step("seal", nil)
+		step("restart", nil)
+	case "scn-overlap":
+		prev := a
+		step("bulk", a)
+		for i, n := 0, 2+r.Intn(3); i < n; i++ {
+			k := 1 + r.Intn(len(prev))
+			b := mix(vary(prev[len(prev)-k:]), fresh(1+r.Intn(2)))
+			step("bulk", b)
+			prev = b
+			if r.Chance(1, 3) {
+				step("restart", nil)
+			}
+		}
+		step("seal", nil)
+		step("restart", nil)
+	default: // scn-degenerate
+		step("restart", nil)
+		step("seal", nil)
+		step("bulk", a)
+		step("bulk", vary(a))
+		step("restart", nil)
+		step("restart", nil)
+		step("seal", nil)
+		step("seal", nil)
+		step("restart", nil)
+		step("bulk", a)
+		step("restart", nil)
+	}
+	return h
+}
+
+// FracDump is a copy of the tables of one fraction: after At steps, fraction number Frac among
+// the fractions holding documents (oldest first).
+type FracDump struct {
+	At     int                        `json:"at"`
+	Frac   int                        `json:"frac"`
+	Active *frac.VerifC17State        `json:"active,omitempty"`
+	Sealed *frac.VerifC17SealedState  `json:"sealed,omitempty"`
 }
 
 type histResult struct {
 	h     History
 	obs   []Obs
-	dump  *frac.VerifC17State
+	dumps []FracDump
 	err   string
 	fatal string // panic in the goroutine applying the history (recovered)
 	crash string // the store process died (panic in a background goroutine, logger.Fatal)
@@ -404,13 +568,15 @@ type histResult struct {
 
 // wire form of a histResult between the storectl child and the driver
 type histWire struct {
-	Obs   []Obs               `json:"obs"`
-	Dump  *frac.VerifC17State `json:"dump,omitempty"`
+	Obs   []Obs      `json:"obs"`
+	Dumps []FracDump `json:"dumps,omitempty"`
 	Err   string              `json:"err,omitempty"`
 	Fatal string              `json:"fatal,omitempty"`
 }
 
 const opHistory = "c17-history"
+
+var defaultIndexWorkers = conf.IndexWorkers
 
 func init() {
 	// executed in the child: the whole history runs on a real store inside the child process
@@ -420,7 +586,7 @@ func init() {
 			return storectl.Resp{}, err
 		}
 		res := runHistory(h)
-		b, err := json.Marshal(histWire{Obs: res.obs, Dump: res.dump, Err: res.err, Fatal: res.fatal})
+		b, err := json.Marshal(histWire{Obs: res.obs, Dumps: res.dumps, Err: res.err, Fatal: res.fatal})
 		if err != nil {
 			return storectl.Resp{}, err
 		}
@@ -469,7 +635,7 @@ func (wk *worker) run(h History) (res histResult) {
 		res.err = "driver protocol: " + err.Error()
 		return
 	}
-	res.obs, res.dump, res.err, res.fatal = hw.Obs, hw.Dump, hw.Err, hw.Fatal
+	res.obs, res.dumps, res.err, res.fatal = hw.Obs, hw.Dumps, hw.Err, hw.Fatal
 	if wk.n++; wk.n >= 150 {
 		wk.stop()
 	}
@@ -488,7 +654,16 @@ func runHistory(h History) (res histResult) {
 		panic(err)
 	}
 	defer os.RemoveAll(dir)
-	fm, err := fracbuild.NewFM(dir, nil)
+	conf.IndexWorkers = defaultIndexWorkers
+	if h.Workers > 0 {
+		conf.IndexWorkers = h.Workers
+	}
+	defer func() { conf.IndexWorkers = defaultIndexWorkers }()
+	mod := func(c *fracmanager.Config) {
+		c.Fraction.SkipSortDocs = h.SkipSort
+		c.SealParams.DocBlockSize = h.BlockSize
+	}
+	fm, err := fracbuild.NewFM(dir, mod)
 	if err != nil {
 		res.err = "open: " + err.Error()
 		return
@@ -515,11 +690,27 @@ func runHistory(h History) (res histResult) {
 	for _, k := range h.ObsAt {
 		obsAt[k] = true
 	}
+	dumpsAt := map[int]bool{}
+	for _, k := range h.DumpsAt {
+		dumpsAt[k] = true
+	}
 	after := func(k int) bool {
-		if k == h.DumpAt {
-			if act := fm.VerifC17Active(); act != nil {
-				st := act.VerifC17State()
-				res.dump = &st
+		if dumpsAt[k] {
+			for j, f := range fm.VerifC17Fractions() {
+				d := FracDump{At: k, Frac: j}
+				switch {
+				case f.Active != nil:
+					st := f.Active.VerifC17State()
+					d.Active = &st
+				case f.Sealed != nil:
+					st, err := f.Sealed.VerifC17SealedState(tokenNames)
+					if err != nil {
+						res.err = fmt.Sprintf("reading the sealed tables after %d steps: %v", k, err)
+						return false
+					}
+					d.Sealed = &st
+				}
+				res.dumps = append(res.dumps, d)
 			}
 		}
 		if obsAt[k] {
@@ -548,7 +739,7 @@ func runHistory(h History) (res histResult) {
 		case "restart":
 			fracbuild.Close(fm)
 			var fm2 *fracmanager.FracManager
-			fm2, err = fracbuild.NewFM(dir, nil)
+			fm2, err = fracbuild.NewFM(dir, mod)
 			if err == nil {
 				fm = fm2
 			}
@@ -614,6 +805,31 @@ func coqObs(o Obs, probes []idPair) string {
 		ts = append(ts, fmt.Sprintf("%d%%N", t))
 	}
 	return fmt.Sprintf("(mkObs [%s] [%s] [%s])", strings.Join(qs, "; "), strings.Join(fs, "; "), strings.Join(ts, "; "))
+}
+
+func coqOptPos(p seq.DocPos) string {
+	if p == seq.DocPosNotFound {
+		return "None"
+	}
+	return "(Some " + coqPos(p) + ")"
+}
+
+func coqSDump(st *frac.VerifC17SealedState) string {
+	var ids []idPair
+	for i := range st.MIDs {
+		ids = append(ids, idPair{st.MIDs[i], st.RIDs[i]})
+	}
+	var toks, ps []string
+	for c, name := range tokenNames {
+		l := u32s(st.Tokens[name])
+		sort.Ints(l)
+		toks = append(toks, fmt.Sprintf("(%d%%N, %s)", c, casefile.NatList(l)))
+	}
+	for _, p := range st.Pos {
+		ps = append(ps, coqOptPos(p))
+	}
+	return fmt.Sprintf("(mkSDump %s [%s] [%s] %d %d%%N %d%%N %d%%N)", coqIDs(ids), strings.Join(ps, "; "),
+		strings.Join(toks, "; "), st.Blocks, st.DocsTotal, uint64(st.From), uint64(st.To))
 }
 
 func coqDump(st *frac.VerifC17State) (string, error) {
@@ -688,29 +904,60 @@ func emitHistory(w *casefile.Writer, res histResult) {
 	for _, s := range h.Steps {
 		steps = append(steps, coqStep(s))
 	}
-	dmp := "None"
-	if res.dump != nil && h.DumpAt >= 0 {
-		d, err := coqDump(res.dump)
-		if err != nil {
-			w.Violate("history-foreign-token", err.Error(), h)
-			return
+	var dumps []string
+	for _, d := range res.dumps {
+		var t string
+		switch {
+		case d.Active != nil:
+			x, err := coqDump(d.Active)
+			if err != nil {
+				w.Violate("history-foreign-token", err.Error(), h)
+				return
+			}
+			t = "DActive " + x
+			w.Count("dump:active")
+		case d.Sealed != nil:
+			t = "DSealed " + coqSDump(d.Sealed)
+			w.Count("dump:sealed")
+		default:
+			continue
 		}
-		dmp = fmt.Sprintf("(Some (%d, %s))", h.DumpAt, d)
+		dumps = append(dumps, fmt.Sprintf("(%d, %d, %s)", d.At, d.Frac, t))
 	}
 	var obs []string
 	for i, o := range res.obs {
 		obs = append(obs, fmt.Sprintf("(%d, %s)", h.ObsAt[i], coqObs(o, probes)))
 	}
-	term := fmt.Sprintf("CHist [%s] %s [%s]", strings.Join(steps, "; "), dmp, strings.Join(obs, ";\n      "))
+	term := fmt.Sprintf("CHist2 (mkCfg %s %d%%N) [%s]\n     [%s]\n     [%s]", casefile.Bool(h.SkipSort), h.effBlockSize(),
+		strings.Join(steps, "; "), strings.Join(dumps, ";\n      "), strings.Join(obs, ";\n      "))
 	if nested {
 		w.Count("history:with-nested")
 	}
 	if repeats > 0 {
 		w.Count("history:with-repeats")
 	}
+	restarts, seals := 0, 0
+	for _, s := range h.Steps {
+		switch s.Kind {
+		case "restart":
+			restarts++
+		case "seal":
+			seals++
+		}
+	}
+	if h.SkipSort {
+		w.Count("history:skip-sort-docs")
+	} else if h.BlockSize > 0 {
+		w.Count("history:small-docs-blocks")
+	}
+	if h.exact() {
+		w.Count("history:one-index-worker")
+	}
+	w.Dist["history:restarts"] += restarts
+	w.Dist["history:seals"] += seals
 	w.Dist["history:documents-sent"] += total
 	w.Dist["history:repeats-sent"] += repeats
-	w.Add(term, "history-"+h.Mode, repeats > 0 && repeats < total, h, map[string]any{"obs": res.obs, "dump": res.dump})
+	w.Add(term, "history-"+h.Mode, repeats > 0 && repeats < total, h, map[string]any{"obs": res.obs, "dumps": res.dumps})
 }
 
 // probeNewToken is one deliberate history outside the property's quantifier (a re-delivery of
@@ -722,7 +969,7 @@ func probeNewToken(w *casefile.Writer) {
 	a := Doc{MID: 1039, RID: 1, Var: 0, Pad: 4, Toks: []int{tokAll}}
 	a2 := a
 	a2.Toks = []int{tokenCode("k:a"), tokAll}
-	h := History{Mode: "probe-new-token", DumpAt: -1, ObsAt: []int{2, 3},
+	h := History{Mode: "probe-new-token", ObsAt: []int{2, 3},
 		Steps: []Step{{Kind: "bulk", Docs: []Doc{a}}, {Kind: "bulk", Docs: []Doc{a2}}, {Kind: "seal"}}}
 	wk := &worker{}
 	res := wk.run(h)
@@ -775,7 +1022,7 @@ func main() {
 		fmt.Fprintln(os.Stderr, "need -out")
 		os.Exit(2)
 	}
-	w, err := casefile.New(*out, "C17", "From VLib Require Import CaseLib.\nFrom C17 Require Import Model CaseDefs.", 40)
+	w, err := casefile.New(*out, "C17", "From VLib Require Import CaseLib.\nFrom C17 Require Import Model ModelSeal CaseDefs.", 40)
 	if err != nil {
 		panic(err)
 	}
@@ -825,13 +1072,21 @@ func main() {
 	hr := r.Fork()
 	hs := make([]History, nHist)
 	for i := range hs {
-		mode := []string{"seq", "seq", "seq", "cross", "conc"}[hr.Intn(5)]
-		hs[i] = genHistory(hr.Fork(), mode, 2+hr.Intn(5))
+		switch k := hr.Intn(10); {
+		case k < 4:
+			hs[i] = genHistory(hr.Fork(), "seq", 2+hr.Intn(5))
+		case k < 6:
+			hs[i] = genHistory(hr.Fork(), "cross", 2+hr.Intn(5))
+		case k < 7:
+			hs[i] = genHistory(hr.Fork(), "conc", 2+hr.Intn(5))
+		default:
+			hs[i] = genScenario(hr.Fork(), []string{"scn-restart-between", "scn-seal-repeat", "scn-overlap", "scn-degenerate"}[hr.Intn(4)])
+		}
 	}
 	results := make([]histResult, nHist)
 	var wg sync.WaitGroup
 	next := make(chan int)
-	for k := 0; k < 6; k++ {
+	for k := 0; k < 4; k++ {
 		wg.Add(1)
 		go func() {
 			defer wg.Done()
